@@ -413,6 +413,29 @@ def sharded_part(R, n):
                             R.violation("server / connection failure during a sharded fetch surfaced as something "
                                         "else than a data-access / I/O error", c2,
                                         {"http": h12._short(h2), "fault_free": h12._short(h)})
+            # one accessor, chunk reads and file reads interleaved: a file read after a (ranged) chunk read
+            # must still return the whole file, and the chunk read after it the same chunk
+            acc3 = accessor.get_accessor_for_url(url)
+            site.reset()
+            seq_case = {**case0, "sequence": "file, chunk, file, exists, chunk on one accessor"}
+            co3 = stored[0]
+            want_chunk = run_impl(lambda: ShardedFileAccessor(ds).fetch_chunk("1mm", tuple(co3)))
+            steps = [("file", lambda: acc3.fetch_file("info"), ["ok", ib]),
+                     ("chunk", lambda: acc3.fetch_chunk("1mm", tuple(co3)), want_chunk),
+                     ("file", lambda: acc3.fetch_file("info"), ["ok", ib]),
+                     ("exists", lambda: acc3.file_exists("info"), ["ok", True]),
+                     ("exists", lambda: acc3.file_exists("nope"), ["ok", False]),
+                     ("chunk", lambda: acc3.fetch_chunk("1mm", tuple(co3)), want_chunk),
+                     ("file", lambda: acc3.fetch_file("info"), ["ok", ib])]
+            R.case(seq_case, nontrivial=True)
+            for si, (what, fn, want3) in enumerate(steps):
+                got3 = run_impl(fn)
+                R.count(f"sharded:interleaved:{what}:{got3[0]}")
+                if got3 != want3:
+                    R.violation("interleaved file and chunk reads through one sharded HTTP accessor differ from the "
+                                "local reads", {**seq_case, "step": si, "what": what},
+                                {"http": h12._short(got3), "local": h12._short(want3)})
+                    break
     rep = R.model.batch(reqs)
     for (kind, case, impl, log, origin, enc), m in zip(pend, rep):
         if kind == "dispatch":
